@@ -8,7 +8,7 @@ def zoom(array, newSize, order=3):
     """
     A Class to zoom 2-dimensional arrays using interpolation
 
-    Uses the scipy `Interp2d` interpolation routine to zoom into an array. Can cope with real of complex data.
+    Uses the scipy ``RectBivariateSpline`` interpolation routine (``interp2d`` was removed from SciPy) to zoom into an array. Can cope with real of complex data.
 
     Parameters:
         array (ndarray): 2-dimensional array to zoom
@@ -35,25 +35,24 @@ def zoom(array, newSize, order=3):
     #If array is complex must do 2 interpolations
     if array.dtype==numpy.complex64 or array.dtype==numpy.complex128:
 
-        realInterpObj = interp2d(   numpy.arange(array.shape[0]),
-                numpy.arange(array.shape[1]), array.real, copy=False, 
-                kind=INTERP_KIND[order])
-        imagInterpObj = interp2d(   numpy.arange(array.shape[0]),
-                numpy.arange(array.shape[1]), array.imag, copy=False,
-                kind=INTERP_KIND[order])                 
-        return (realInterpObj(coordsY,coordsX) 
-                            + 1j*imagInterpObj(coordsY,coordsX))
+        realInterpObj = RectBivariateSpline(   numpy.arange(array.shape[0]),
+                numpy.arange(array.shape[1]), array.real,
+                kx=order, ky=order)
+        imagInterpObj = RectBivariateSpline(   numpy.arange(array.shape[0]),
+                numpy.arange(array.shape[1]), array.imag,
+                kx=order, ky=order)
+        return (realInterpObj(coordsX,coordsY)
+                            + 1j*imagInterpObj(coordsX,coordsY))
 
         
 
     else:
 
-        interpObj = interp2d(   numpy.arange(array.shape[0]),
-                numpy.arange(array.shape[1]), array, copy=False,
-                kind=INTERP_KIND[order])
+        interpObj = RectBivariateSpline(   numpy.arange(array.shape[0]),
+                numpy.arange(array.shape[1]), array,
+                kx=order, ky=order)
 
-        #return numpy.flipud(numpy.rot90(interpObj(coordsY,coordsX)))
-        return interpObj(coordsY,coordsX) 
+        return interpObj(coordsX,coordsY)
 
 def zoom_rbs(array, newSize, order=3):
     """
